@@ -179,8 +179,15 @@ func TestHistDebug(t *testing.T) {
 	histDebug = true
 	var hs int64
 	fmt.Sscan(os.Getenv("HIST_SEED"), &hs)
-	_, stats, halted := runHistory(t, hs, 25)
+	blocks := 25
+	if b := os.Getenv("HIST_BLOCKS"); b != "" {
+		fmt.Sscan(b, &blocks)
+	}
+	term, stats, halted := runHistory(t, hs, blocks)
 	fmt.Println(stats, "HALTED:", halted)
+	if f := os.Getenv("HIST_TERM"); f != "" {
+		_ = os.WriteFile(f, []byte(term), 0o644)
+	}
 	w := lastWorld
 	vals, _ := w.s.Stakingkeeper.GetAllValidators(w.ctx)
 	for _, v := range vals {
@@ -193,7 +200,7 @@ func TestHistDebug(t *testing.T) {
 // 3:3:1-style powers, selectors joining them, tips whose amounts do not divide by the number of
 // reporters, every reporter reporting the tipped / scheduled query, time based rewards running, and tip
 // withdrawals by every party, through the real message servers and Begin/EndBlockers.
-func runPayoutHistory(t *testing.T, seed int64, blocks int) (string, map[string]int, string) {
+func runPayoutHistory(t *testing.T, seed int64, blocks int, f06 bool) (string, map[string]int, string) {
 	r := rand.New(rand.NewSource(seed))
 	nVals := 3 + r.Intn(3)
 	w := newWorld(t, r, nVals, 3)
@@ -210,6 +217,9 @@ func runPayoutHistory(t *testing.T, seed int64, blocks int) (string, map[string]
 	for i := 2; i < nVals; i++ {
 		i := i
 		rate := pick(r, math.LegacyZeroDec(), math.LegacyNewDecWithPrec(1, 1), math.LegacyNewDecWithPrec(5, 1))
+		if f06 {
+			rate = math.LegacyNewDec(2) // witness of finding F06: a commission "rate" of 2 is accepted
+		}
 		if _, err := w.reporterMS.CreateReporter(w.ctx, &reportertypes.MsgCreateReporter{ReporterAddress: w.accts[i].String(), CommissionRate: rate, MinTokensRequired: math.NewInt(loyaPerTRB)}); err != nil {
 			t.Fatal(err)
 		}
@@ -229,6 +239,9 @@ func runPayoutHistory(t *testing.T, seed int64, blocks int) (string, map[string]
 		amt := pick(r, bi(1*loyaPerTRB), bi(333*loyaPerTRB), bi(1000*loyaPerTRB), bi(1234567))
 		_, _ = w.stakingMS.Delegate(w.ctx, &stakingtypes.MsgDelegate{DelegatorAddress: w.accts[a].String(), ValidatorAddress: w.valOps[v].String(), Amount: w.coin(amt)})
 		rep := r.Intn(nVals)
+		if f06 {
+			rep = 2
+		}
 		_, _ = w.reporterMS.SelectReporter(w.ctx, &reportertypes.MsgSelectReporter{SelectorAddress: w.accts[a].String(), ReporterAddress: w.accts[rep].String()})
 	}
 	if r.Intn(2) == 0 {
@@ -325,15 +338,19 @@ func TestHistPayouts(t *testing.T) {
 	base := seed()*7_000_003 + 17
 	for i := 0; i < n; i++ {
 		hs := base + int64(i)
-		term, stats, halted := runPayoutHistory(t, hs, 10)
+		term, stats, halted := runPayoutHistory(t, hs, 10, i == 0)
 		kind := "completed"
+		var tags []string
+		if i == 0 {
+			tags = []string{"corpus:F06"}
+		}
 		if halted != "" {
 			kind = "halted"
 		}
 		if stats["WithdrawTip/insufficient"] > 0 {
 			kind = "withdraw-insufficient"
 		}
-		out.Emit(Case{Coq: term, Kind: kind, Nontrivial: stats["SubmitValue/0"] >= 6 && stats["Tip/0"] >= 2, Key: fmt.Sprint(hs),
+		out.Emit(Case{Coq: term, Kind: kind, Nontrivial: stats["SubmitValue/0"] >= 6 && stats["Tip/0"] >= 2, Key: fmt.Sprint(hs), Tags: tags,
 			Human: map[string]interface{}{"history_seed": hs, "ops": stats, "halted": halted}})
 	}
 }
